@@ -345,6 +345,7 @@ func (u *upstream) handleRedirection(req *simpleRequest, resp *RespValue) {
 			*newBulkString(ASKING),
 		))
 		u.MakeRequestToHost(hostAddr, askingReq)
+		verifhook.At2("upstream.handleRedirection.asked", u, req)
 		u.MakeRequestToHost(hostAddr, req)
 	}
 	u.triggerSlotsRefresh()
